@@ -33,7 +33,8 @@ STATE_MEASURE = "distinct (graph shape class, root format, fault kind, call site
 PROBES = ["cycle_in_graph", "self_reference", "mapped_edge_followed", "nonmatching_edge_present", "remote_edge_from_remote_root",
           "file_edge_under_remote_root", "checker_ran_as_thread", "checker_never_ran", "scheduler_switched", "line_preemption",
           "host_down_during_listing", "host_healed_then_offered", "origin_deleted", "dcor_root", "s3_root", "http_root",
-          "value_from_depth_2", "keyerror_for_unavailable", "missing_identifier", "remote_typed_local_path", "flaky_host", "path_component_too_long"]
+          "value_from_depth_2", "keyerror_for_unavailable", "missing_identifier", "remote_typed_local_path", "flaky_host", "path_component_too_long",
+          "availability_verified_before_weather_change"]
 COMPONENTS = {
     "real": ["dclab core basins machinery (basins_retrieve, features_basin, _get_basin_feature_data, identifier verification, cycle cut)",
              "feat_basin.Basin/BasinProxy, HDF5Basin, HTTPBasin, S3Basin, DCORBasin, RTDC_HTTP/RTDC_S3/RTDC_DCOR/APIHandler, HTTPFile",
@@ -326,11 +327,23 @@ class World:
     def gen_op(self, r):
         if self.ds is None:
             return {"k": "open"}
+        hist = getattr(self, "op_hist", [])
+        if self.k["klass"] == "weather" and hist[-1:] == ["verify"] and r.random() < 0.7:
+            # the window between a verified availability and the first use of the basin
+            return {"k": "weather", "host": r.randrange(4), "state": r.choice(["refuse", "down", "dnsfail", "flaky"]), "node": r.randrange(6),
+                    "fseed": r.randrange(1 << 20)}
+        if self.k["klass"] == "weather" and hist[-2:] == ["verify", "weather"] and r.random() < 0.7:
+            return r.choice([{"k": "listing", "what": "features_basin"}, {"k": "contains", "feat": r.choice(FEATS)},
+                             {"k": "read", "feat": r.choice(FEATS), "how": "all", "i": 0}])
         x = r.random()
         if self.k["klass"] == "weather" and x < 0.22:
             y = r.random()
             if y < 0.6:
-                return {"k": "weather", "host": r.randrange(4), "state": r.choice(["refuse", "dnsfail", "down", "up", "up", "403", "404", "flaky", "flaky"]), "node": r.randrange(6)}
+                return {"k": "weather", "host": r.randrange(4), "state": r.choice(["refuse", "dnsfail", "down", "up", "up", "403", "404", "flaky", "flaky", "flaky"]), "node": r.randrange(6),
+                        "fseed": r.choice([0, r.randrange(1, 1 << 20)])}
+            if y < 0.75:
+                # the availability of the root's basins gets verified (as the background checker would do) before the weather changes
+                return {"k": "verify"}
             return {"k": "delete", "node": r.randrange(1, 6)}
         if x < 0.32:
             return {"k": "listing", "what": r.choice(["features_basin", "features", "features_innate"])}
@@ -347,6 +360,7 @@ class World:
         self.sched.yield_point("op")
         self.net.fault_rng = self.ctx.rng("net")
         self.net.fault_rate = self.k["fault_rate"]
+        self.op_hist = (getattr(self, "op_hist", []) + [op["k"]])[-3:]
         getattr(self, "do_" + op["k"])(op)
 
     def guarded(self, oracle, fn, allow=(), sig=None):
@@ -492,6 +506,18 @@ class World:
             if self.ds_fmt != "dcor" and offered != own:
                 ctx.violation("C14.innate", f"features_innate lists {sorted(offered)}, the root stores {sorted(own)}", sig={})
 
+    def do_verify(self, op):
+        if self.ds is None:
+            return
+        ds = self.ds
+
+        def verify():
+            return [bool(bn.is_available()) for bn in ds.basins]
+        ok, res = self.guarded("C14.listing.raises", verify, sig={"site": "is_available"})
+        if ok and any(res):
+            self.ctx.probe("availability_verified_before_weather_change")
+        self.ctx.log("c", "verify", res if ok else "exc")
+
     def do_contains(self, op):
         if self.ds is None:
             return
@@ -581,6 +607,7 @@ class World:
             self.ctx.fault("http_" + st)
         else:
             host.state = st
+            host.flaky_seed, host.flaky_count = op.get("fseed", 0), 0
             if st != "up":
                 self.ctx.fault("host_" + st)
         if st != "up":
